@@ -172,6 +172,7 @@ pub fn exec(s: &Script, st: &mut Stats) -> Result<RunInfo, Violation> {
                 snap,
                 adler_probe: false,
                 post_done: false,
+                prelude: None,
             };
             let base = run_core(&m, &mk(None), &s.ops, st)?;
             hh.u(base.hash);
@@ -189,7 +190,7 @@ pub fn exec(s: &Script, st: &mut Stats) -> Result<RunInfo, Violation> {
         3 => {
             let fmt = if zlib { DataFormat::Zlib } else { DataFormat::Raw };
             let tail_cap = v.out.len() / 4096 + m.len() + 16;
-            let base = run_inflate_snap(&m, fmt, &s.ops, s.c("finish_tail") != 0, false, tail_cap, st, "C19", None)?;
+            let base = run_inflate_snap(&m, fmt, &s.ops, s.c("finish_tail") != 0, false, tail_cap, st, "C19", None, None)?;
             hh.u(base.hash);
             let at = s.c_or("snap_at", -1);
             let ks: Vec<u32> = if at >= 0 { vec![at as u32 + 1] } else { (1..=base.calls.min(200)).collect() };
@@ -197,7 +198,7 @@ pub fn exec(s: &Script, st: &mut Stats) -> Result<RunInfo, Violation> {
                 if k > base.calls {
                     continue;
                 }
-                let r = run_inflate_snap(&m, fmt, &s.ops, s.c("finish_tail") != 0, false, tail_cap, st, "C19", Some(k))?;
+                let r = run_inflate_snap(&m, fmt, &s.ops, s.c("finish_tail") != 0, false, tail_cap, st, "C19", Some(k), None)?;
                 same(&base, &r, format!("restart from a clone of InflateState taken after call {}", k))?;
             }
             Ok(RunInfo { hash: hh.0, nontrivial: base.calls > 1 })
